@@ -849,6 +849,10 @@ func run(tier, unit string, r *vlib.Rec) {
 		runCompare(r, lo, hi)
 		return
 	}
+	if uname == "pervar" {
+		runPV(r, lo, hi)
+		return
+	}
 	steps := allSteps()
 	ps := progs(depth(tier))
 	for i := lo; i < hi; i++ {
@@ -874,12 +878,16 @@ func run(tier, unit string, r *vlib.Rec) {
 
 func plan(tier string) []string {
 	out := vlib.Chunks("programs", int64(len(progs(depth(tier)))), 400)
+	out = append(out, vlib.Chunks("pervar", int64(len(pvPrograms())), 4)...)
 	return append(out, vlib.Chunks("compare", int64(len(cmpCases())), 40)...)
 }
 
 func replay(c json.RawMessage) (string, string) {
 	var k kase
 	json.Unmarshal(c, &k)
+	if k.Depth == -2 {
+		return judgePV(k.Prog, strings.Split(k.Doc, ","))
+	}
 	if k.Depth == -1 {
 		cs := cmpCases()
 		if k.Prog >= len(cs) || cs[k.Prog].query() != k.Query {
@@ -902,7 +910,7 @@ func main() {
 	vlib.Main(&vlib.Check{
 		ID:    "C16",
 		Level: "translation_validation",
-		Rule: "programs: every well-typed query of pipeline depth <=d (3 quick, 4 thorough) from a typed grammar over {Doc, Indi, Fam, role nodes, Name, Date, Node, string, number, bool, object} x list nesting: 34 accessors from a hand-written signature table, First/Last(0..4), Length, NodesWithTagPath (6 tag paths), Only over 7 accessor chains x 6 operators x numeric/text/mixed constants, 3 object constructions; plus variable forms (definition, a variable defined through another variable, unused definition) and Combine(V,V) / Combine(V,V)|Length on every program of depth <=2; plus the comparison table: every operator x every constant of a 36-operand set (signed, leading dot/zero/plus, exponent, numeric-looking text, both cases, empty; quoted and as number token) against all 36 operands as values; each rendered to text and evaluated by the real engine on 6 documents, and by the reference interpreter (Go closures calling the gedcom API directly: map over lists in order, prefix/suffix, len, order-preserving filter with the documented comparison rule, concatenation, gedcom.NodesWithTagPath, substitution for variables). " +
+		Rule: "programs: every well-typed query of pipeline depth <=d (3 quick, 4 thorough) from a typed grammar over {Doc, Indi, Fam, role nodes, Name, Date, Node, string, number, bool, object} x list nesting: 34 accessors from a hand-written signature table, First/Last(0..4), Length, NodesWithTagPath (6 tag paths), Only over 7 accessor chains x 6 operators x numeric/text/mixed constants, 3 object constructions; plus variable forms (definition, a variable defined through another variable, unused definition) and Combine(V,V) / Combine(V,V)|Length on every program of depth <=2; plus variables evaluated per item (in Only conditions and object fields, through a second variable) and one parsed engine evaluated on every ordered pair/triple of documents (30 hand-written programs with Go closures as reference); plus the comparison table: every operator x every constant of a 36-operand set (signed, leading dot/zero/plus, exponent, numeric-looking text, both cases, empty; quoted and as number token) against all 36 operands as values; each rendered to text and evaluated by the real engine on 6 documents, and by the reference interpreter (Go closures calling the gedcom API directly: map over lists in order, prefix/suffix, len, order-preserving filter with the documented comparison rule, concatenation, gedcom.NodesWithTagPath, substitution for variables). " +
 			"Non-trivial = (program with >=1 step, document) pairs where both sides produce a value and agree; distinct by (query text, document).",
 		Assumptions: []string{
 			"results are compared after JSON normalisation (what the json formatter prints); an empty list and null are the same 'nothing'",
